@@ -385,6 +385,30 @@ def run_lanes(prop, seed, outdir):
     return summary, violations
 
 
+def block_table_fresh(outdir):
+    """C10: the checked-in block.rs equals the output of the repository's own generator
+    (regexml-ucd-blocks) modulo formatting. Returns (status string, violation or None)."""
+    import re
+    env = dict(ENV, CARGO_TARGET_DIR=os.path.join(VERIF, "target", "ucd"))
+    p = subprocess.run(["cargo", "run", "-q", "--offline", "-p", "regexml-ucd-blocks"], cwd=REPO, env=env, stdout=subprocess.PIPE, stderr=subprocess.PIPE, text=True)
+    if p.returncode != 0:
+        return "generator could not be run: " + p.stderr[-300:], None
+    try:
+        cur = open(os.path.join(REPO, "regexml", "src", "block.rs")).read()
+    except OSError as e:
+        return "block.rs unreadable: %s" % e, None
+
+    def norm(t):
+        return re.sub(r",\]", "]", re.sub(r"\s+", "", t))
+
+    if norm(p.stdout) == norm(cur):
+        return "block.rs equals the generator output modulo formatting (%d characters compared)" % len(norm(cur)), None
+    logp = os.path.join(outdir, "block_table_diff.txt")
+    with open(logp, "w") as f:
+        f.write(p.stdout)
+    return "STALE", {"property": "C10", "kind": "block_table_differs_from_generator", "observed": "regexml/src/block.rs differs from the output of regexml-ucd-blocks (generator output saved to %s)" % logp, "expected": "identical modulo formatting", "case": {"pattern": "", "flags": "", "input": "", "aux": "generator diff"}, "original_case": {}, "shrink_complete": False, "facts": {"has_ast": False}}
+
+
 def probe_send_sync(outdir):
     """Compile-time clause of C18. Returns None if Regex is Send + Sync, else a violation record;
     raises RuntimeError when the probe cannot be built for another reason."""
@@ -530,6 +554,11 @@ def check(prop, tier, seed, record_canaries=False):
         except RuntimeError as e:
             log("BUILD-FAILED: the Send + Sync probe crate does not build for an unrelated reason:\n" + str(e))
             return 2
+    block_table = None
+    if prop == "C10":
+        block_table, v = block_table_fresh(outdir)
+        if v:
+            violations.append(v)
     lane_summary = {}
     if tier == "thorough" and prop in ("C05", "C18") and not os.environ.get("VERIF_NO_LANES"):
         lane_summary, lane_viol = run_lanes(prop, seed, outdir)
@@ -627,6 +656,7 @@ def check(prop, tier, seed, record_canaries=False):
         "unattributed_violations": len(unknown),
         "incidents": [{k: inc.get(k) for k in ("first", "solo", "detail")} for inc in incidents][:10],
         "send_sync_probe": send_sync if prop == "C18" else "n/a",
+        "block_table_vs_generator": block_table if prop == "C10" else "n/a",
         "sanitizer_lanes": lane_summary if lane_summary else ("not run in the quick tier (build cost); see the thorough tier" if prop in ("C05", "C18") else "not applicable: no unsafe code, threads or shared state behind this property"),
         "oracle_selftest": {k: st.get(k) for k in ("repo_expectations_checked", "repo_expectations_found", "roundtrip_cases")},
         "insufficient": problems,
